@@ -1,3 +1,447 @@
-import Spec.Ident
+import Lemmas.Ident.Mssql
+/-!
+# C14 — emitted DDL quotes every identifier and honours the schema
+-/
 namespace C14
+open Model.Ident Spec.Ident Lemmas.Ident
+
+/-- `Good k r c`: the construct has a visitor on dialect `k`, and the compiled text followed by the
+    command terminator tokenises (dialect lexer) into exactly the shape the request demands. -/
+def Good (k : Kind) (r : Str → Bool) (c : Construct) : Prop :=
+  ∃ s items, render k r c = some s ∧ shape k c = some items ∧ emittedOk k r items (s ++ terminator k) = true
+
+theorem good_of_pieces (k : Kind) (r : Str → Bool) (c : Construct) (ps : List Piece)
+    (hr : render k r c = some (renderPs k r ps)) (hs : shape k c = some (itemsPs ps))
+    (hwf : wf k ps = true) (hok : PiecesOK k ps) : Good k r c := by
+  refine ⟨_, _, hr, hs, ?_⟩
+  have := pieces_ok k r ps (terminator k) hwf hok (sepHead_term k) (noDot_term k)
+  simp only [emittedOk, lex, this, beq_self_eq_true]
+
+/-! ## round trips: quoting / escaping against the dialect lexer -/
+
+/-- **Delimiter doubling round-trips, for every dialect and EVERY name** (any length, any characters,
+    including the empty name and the delimiters themselves): the delimited form followed by anything
+    that does not start with the close delimiter lexes to exactly the identifier `n`. -/
+theorem delimit_roundtrip (k : Kind) (n rest : Str) (h : rest.head? ≠ some (closeQ k)) :
+    lex k (openQ k :: (escapeClose (closeQ k) n ++ closeQ k :: rest)) = .qid n :: lex k rest :=
+  lexFrom_delimited k n rest h
+
+example : lex .mssql ("[a]]b]".toList ++ ", x".toList) = .qid "a]b".toList :: lex .mssql ", x".toList := by decide
+example : lex .mssql "[a]b]".toList ≠ [.qid "a]b".toList] := by decide   -- forgetting to double is rejected
+
+/-- full-strength statement for what SQLAlchemy's `quote_identifier` writes in an offline script -/
+def quote_roundtrip_statement : Prop :=
+  ∀ (k : Kind) (n rest : Str), rest.head? ≠ some (closeQ k) → lex k (quoteIdent k n ++ rest) = .qid n :: lex k rest
+
+/-- it fails: on dialects whose default driver uses format/pyformat parameters a `%` is written `%%` -/
+theorem quote_roundtrip_counterexample : ¬ quote_roundtrip_statement := by
+  intro h
+  have := h .postgresql "a%b".toList [] (by simp)
+  revert this
+  decide
+
+/-- … and holds whenever the dialect does not double `%` or the name has no `%` -/
+theorem quote_roundtrip_partial (k : Kind) (n rest : Str) (hp : dblPercent k = false ∨ '%' ∉ n)
+    (h : rest.head? ≠ some (closeQ k)) : lex k (quoteIdent k n ++ rest) = .qid n :: lex k rest :=
+  lex_quoteIdent k n rest hp h
+
+example : dblPercent .mssql = false ∨ '%' ∉ "50%".toList := Or.inl rfl
+
+def needs_quotes_statement : Prop :=
+  ∀ (k : Kind) (r : Str → Bool) (n rest : Str), requiresQuotes k r n = false →
+    (∀ c, rest.head? = some c → isWordChar c = false) →
+    lex k (n ++ rest) = .word n :: lex k rest ∧ denote r (.word n) = some n
+
+/-- SQLAlchemy's `LEGAL_CHARACTERS` regex lets one trailing newline through -/
+theorem needs_quotes_counterexample : ¬ needs_quotes_statement := by
+  intro h
+  have := (h .sqlite (fun _ => false) "a\n".toList [] (by decide) (by simp)).1
+  revert this
+  decide
+
+/-- **If `_requires_quotes` says no, the bare name is read back as itself** (one bare word that is not
+    reserved and not case-folded), for every name not ending in a newline. -/
+theorem needs_quotes_partial (k : Kind) (r : Str → Bool) (n rest : Str) (hq : requiresQuotes k r n = false)
+    (hl : n.getLast? ≠ some '\n') (hs : ∀ c, rest.head? = some c → isWordChar c = false) :
+    lex k (n ++ rest) = .word n :: lex k rest ∧ denote r (.word n) = some n := by
+  refine ⟨lex_bare k r n rest hq hl hs, ?_⟩
+  have := denote_nameTok k r { s := n }
+  simpa [nameTok, hq] using this
+
+example : requiresQuotes .oracle (fun _ => false) "abc_1".toList = false := by decide
+example : requiresQuotes .oracle (fun _ => false) "_abc".toList = true := by decide
+
+/-- **Single-quote doubling round-trips** for every string (backslash-free on MySQL/MariaDB, whose
+    literals also have backslash escapes). -/
+theorem literal_roundtrip (k : Kind) (s rest : Str) (hb : backslashEscapes k = false ∨ '\\' ∉ s)
+    (h : rest.head? ≠ some '\'') : lex k (sqlLiteral s ++ rest) = .str s :: lex k rest :=
+  lex_sqlLiteral k s rest hb h
+
+/-- what Alembic's MSSQL visitors write (`'` ++ s ++ `'`) round-trips only without a `'` in `s` -/
+theorem raw_literal_roundtrip (s rest : Str) (hq : '\'' ∉ s) (h : rest.head? ≠ some '\'') :
+    lex .mssql ('\'' :: (s ++ '\'' :: rest)) = .str s :: lex .mssql rest := by
+  have := lex_sqlLiteral .mssql s rest (Or.inl rfl) h
+  simpa [lex, sqlLiteral, escapeClose_id '\'' s hq] using this
+
+example : lex .mssql "'it's'".toList ≠ [.str "it's".toList] := by decide
+example : lex .mssql (sqlLiteral "it's".toList) = [.str "it's".toList] := by decide
+
+/-- discharges the four obligations of `good_of_pieces` for `pieces k c` on a concrete dialect -/
+syntax "c14_pieces" term "," term "," term : tactic
+macro_rules
+  | `(tactic| c14_pieces $k , $r , $c) => `(tactic|
+      (refine good_of_pieces $k $r $c (pieces $k $c) ?_ ?_ ?_ ?_
+       · unfold render
+         simp only [pieces, colspecP, optP, AT, alterTable_eq, alterColumn_oracle, alterColumn_sqlite, alterColumn_postgresql,
+           alterColumn_mssql, mysqlColspec, formatColumnName, formatTableName_none, renderPs, render_tblP, render_tblColP,
+           render_nameP, render_L, render_opq, List.append_assoc, List.append_nil, List.cons_append, List.nil_append,
+           String.toList_empty, if_true, if_false, Bool.false_eq_true, List.isEmpty_nil, List.isEmpty_cons]
+         try simp
+       · simp [shape, pieces, colspecP, optP, AT, itemsPs, itemsP, L, T, TX, tblP, nameP, tblColP, tableRef, nameRef, optText]
+       · rfl
+       · simp [pieces, colspecP, optP, AT, piecesOK_cons, piecesOK_append, piecesOK_nil, pieceOK_L, pieceOK_opq, *]))
+
+/-- case split on the dialect; dialects excluded by a hypothesis `hk : k ∈ [...]` are closed by `simp at hk` -/
+syntax "c14_all" ident "," term "," term "," ident : tactic
+macro_rules
+  | `(tactic| c14_all $k , $r , $c , $hk) => `(tactic|
+      (cases $k:ident
+       · first | (simp at $hk:ident; done) | c14_pieces Kind.sqlite, $r, $c
+       · first | (simp at $hk:ident; done) | c14_pieces Kind.postgresql, $r, $c
+       · first | (simp at $hk:ident; done) | c14_pieces Kind.mysql, $r, $c
+       · first | (simp at $hk:ident; done) | c14_pieces Kind.mariadb, $r, $c
+       · first | (simp at $hk:ident; done) | c14_pieces Kind.mssql, $r, $c
+       · first | (simp at $hk:ident; done) | c14_pieces Kind.oracle, $r, $c))
+
+/-! ## per-construct theorems: for ALL names (any length, any characters) meeting `NameOK`/`TgtOK`,
+all opaque texts meeting `okText`, every reserved-word predicate `r` -/
+
+theorem stmt_dropColumn (k : Kind) (r : Str → Bool) (g : Tgt) (col : Name) (hg : TgtOK k g) (hc : NameOK k col) :
+    Good k r (.dropColumn g col) := by
+  have h1 := ok_tblP k g hg
+  have h2 := ok_nameP k col hc
+  have hk : True := trivial
+  c14_all k, r, (.dropColumn g col), hk
+
+/-- `RenameTable` on every dialect but MSSQL (whose `sp_rename '…'` form is `stmt_mssql_*`) -/
+theorem stmt_renameTable (k : Kind) (r : Str → Bool) (g : Tgt) (new : Name) (hk : k ≠ .mssql)
+    (hg : TgtOK k g) (hn : NameOK k new) : Good k r (.renameTable g new) := by
+  have h1 := ok_tblP k g hg
+  have h2 := ok_nameP k new hn
+  have h3 := ok_tblP k { g with t := new } ⟨hn, hg.schema⟩
+  c14_all k, r, (.renameTable g new), hk
+
+theorem stmt_addColumn (k : Kind) (r : Str → Bool) (g : Tgt) (col : Name) (spec : Str)
+    (hg : TgtOK k g) (hc : NameOK k col) (hs : okText k spec = true) : Good k r (.addColumn g col spec) := by
+  have h1 := ok_tblP k g hg
+  have h2 := ok_nameP k col hc
+  have hk : True := trivial
+  c14_all k, r, (.addColumn g col spec), hk
+
+theorem stmt_columnNullable (k : Kind) (r : Str → Bool) (g : Tgt) (col : Name) (nullable : Bool) (ety : Str)
+    (hk : k ≠ .mysql ∧ k ≠ .mariadb) (hg : TgtOK k g) (hc : NameOK k col) (he : k = .mssql → okText k ety = true) :
+    Good k r (.columnNullable g col nullable ety) := by
+  have h1 := ok_tblP k g hg
+  have h2 := ok_nameP k col hc
+  cases nullable
+  · c14_all k, r, (.columnNullable g col false ety), hk
+  · c14_all k, r, (.columnNullable g col true ety), hk
+
+theorem stmt_columnType (k : Kind) (r : Str → Bool) (g : Tgt) (col : Name) (ty : Str) (usng : Option Str)
+    (hk : k ≠ .mysql ∧ k ≠ .mariadb) (hg : TgtOK k g) (hc : NameOK k col) (ht : okText k ty = true)
+    (hu : ∀ u, usng = some u → u ≠ [] → okText k u = true) :
+    Good k r (.columnType g col ty usng) := by
+  have h1 := ok_tblP k g hg
+  have h2 := ok_nameP k col hc
+  match usng, hu with
+  | none, _ => c14_all k, r, (.columnType g col ty none), hk
+  | some [], _ => c14_all k, r, (.columnType g col ty (some [])), hk
+  | some (c :: u), hu =>
+    have h3 := hu (c :: u) rfl (by simp)
+    c14_all k, r, (.columnType g col ty (some (c :: u))), hk
+
+/-- `ColumnName` on every dialect with a visitor but MSSQL (`sp_rename '…'` form: `stmt_mssql_*`) -/
+theorem stmt_columnName (k : Kind) (r : Str → Bool) (g : Tgt) (col new : Name)
+    (hk : k ≠ .mysql ∧ k ≠ .mariadb ∧ k ≠ .mssql) (hg : TgtOK k g) (hc : NameOK k col) (hn : NameOK k new) :
+    Good k r (.columnName g col new) := by
+  have h1 := ok_tblP k g hg
+  have h2 := ok_nameP k col hc
+  have h3 := ok_nameP k new hn
+  c14_all k, r, (.columnName g col new), hk
+
+theorem stmt_columnDefault (k : Kind) (r : Str → Bool) (g : Tgt) (col : Name) (default : Option Str)
+    (hk : k ≠ .mysql ∧ k ≠ .mariadb ∧ (k = .mssql → default ≠ none)) (hg : TgtOK k g) (hc : NameOK k col)
+    (hd : ∀ d, default = some d → okText k d = true) : Good k r (.columnDefault g col default) := by
+  have h1 := ok_tblP k g hg
+  have h2 := ok_nameP k col hc
+  match default, hd with
+  | none, _ => c14_all k, r, (.columnDefault g col none), hk
+  | some d, hd =>
+    have h3 := hd d rfl
+    c14_all k, r, (.columnDefault g col (some d)), hk
+
+/-- PostgreSQL `COMMENT ON COLUMN` (the Oracle visitor is `columnComment_oracle_counterexample`) -/
+theorem stmt_columnComment_postgresql (r : Str → Bool) (g : Tgt) (col : Name) (comment : Option Str)
+    (hg : TgtOK .postgresql g) (hc : NameOK .postgresql col)
+    (hd : ∀ d, comment = some d → okText .postgresql d = true) : Good .postgresql r (.columnComment g col comment) := by
+  have h1 := ok_tblColP .postgresql g col hg hc
+  match comment, hd with
+  | none, _ => c14_pieces Kind.postgresql, r, (.columnComment g col none)
+  | some d, hd =>
+    have h3 := hd d rfl
+    c14_pieces Kind.postgresql, r, (.columnComment g col (some d))
+
+theorem stmt_identity (k : Kind) (r : Str → Bool) (g : Tgt) (col : Name) (tail : Str)
+    (hk : k = .postgresql ∨ k = .oracle) (hg : TgtOK k g) (hc : NameOK k col) (ht : okText k tail = true) :
+    Good k r (.identity g col tail) := by
+  have h1 := ok_tblP k g hg
+  have h2 := ok_nameP k col hc
+  c14_all k, r, (.identity g col tail), hk
+
+theorem stmt_mysqlAlterDefault (k : Kind) (r : Str → Bool) (g : Tgt) (col : Name) (default : Option Str)
+    (hk : k = .mysql ∨ k = .mariadb) (hg : TgtOK k g) (hc : NameOK k col)
+    (hd : ∀ d, default = some d → okText k d = true) : Good k r (.mysqlAlterDefault g col default) := by
+  have h1 := ok_tblP k g hg
+  have h2 := ok_nameP k col hc
+  match default, hd with
+  | none, _ => c14_all k, r, (.mysqlAlterDefault g col none), hk
+  | some d, hd =>
+    have h3 := hd d rfl
+    c14_all k, r, (.mysqlAlterDefault g col (some d)), hk
+
+/-- the opaque texts of a MySQL column specification are lexically complete -/
+def ColSpecOK (k : Kind) (cs : ColSpec) : Prop :=
+  okText k cs.ty = true ∧ (∀ d, cs.default = some d → okText k d = true) ∧ (∀ c, cs.comment = some c → okText k c = true)
+
+theorem stmt_mysqlModify (k : Kind) (r : Str → Bool) (g : Tgt) (col : Name) (cs : ColSpec)
+    (hk : k = .mysql ∨ k = .mariadb) (hg : TgtOK k g) (hc : NameOK k col) (hcs : ColSpecOK k cs) :
+    Good k r (.mysqlModify g col cs) := by
+  have h1 := ok_tblP k g hg
+  have h2 := ok_nameP k col hc
+  obtain ⟨ty, nullable, autoinc, default, comment⟩ := cs
+  obtain ⟨h3, h4, h5⟩ := hcs
+  simp only at h3 h4 h5
+  match nullable, autoinc, default, comment, h4, h5 with
+  | false, false, none, none, _, _ => c14_all k, r, (.mysqlModify g col ⟨ty, false, false, none, none⟩), hk
+  | false, false, some d, none, h4, _ =>
+    have h6 := h4 d rfl
+    c14_all k, r, (.mysqlModify g col ⟨ty, false, false, some d, none⟩), hk
+  | false, false, none, some c, _, h5 =>
+    have h7 := h5 c rfl
+    c14_all k, r, (.mysqlModify g col ⟨ty, false, false, none, some c⟩), hk
+  | false, false, some d, some c, h4, h5 =>
+    have h6 := h4 d rfl
+    have h7 := h5 c rfl
+    c14_all k, r, (.mysqlModify g col ⟨ty, false, false, some d, some c⟩), hk
+  | false, true, none, none, _, _ => c14_all k, r, (.mysqlModify g col ⟨ty, false, true, none, none⟩), hk
+  | false, true, some d, none, h4, _ =>
+    have h6 := h4 d rfl
+    c14_all k, r, (.mysqlModify g col ⟨ty, false, true, some d, none⟩), hk
+  | false, true, none, some c, _, h5 =>
+    have h7 := h5 c rfl
+    c14_all k, r, (.mysqlModify g col ⟨ty, false, true, none, some c⟩), hk
+  | false, true, some d, some c, h4, h5 =>
+    have h6 := h4 d rfl
+    have h7 := h5 c rfl
+    c14_all k, r, (.mysqlModify g col ⟨ty, false, true, some d, some c⟩), hk
+  | true, false, none, none, _, _ => c14_all k, r, (.mysqlModify g col ⟨ty, true, false, none, none⟩), hk
+  | true, false, some d, none, h4, _ =>
+    have h6 := h4 d rfl
+    c14_all k, r, (.mysqlModify g col ⟨ty, true, false, some d, none⟩), hk
+  | true, false, none, some c, _, h5 =>
+    have h7 := h5 c rfl
+    c14_all k, r, (.mysqlModify g col ⟨ty, true, false, none, some c⟩), hk
+  | true, false, some d, some c, h4, h5 =>
+    have h6 := h4 d rfl
+    have h7 := h5 c rfl
+    c14_all k, r, (.mysqlModify g col ⟨ty, true, false, some d, some c⟩), hk
+  | true, true, none, none, _, _ => c14_all k, r, (.mysqlModify g col ⟨ty, true, true, none, none⟩), hk
+  | true, true, some d, none, h4, _ =>
+    have h6 := h4 d rfl
+    c14_all k, r, (.mysqlModify g col ⟨ty, true, true, some d, none⟩), hk
+  | true, true, none, some c, _, h5 =>
+    have h7 := h5 c rfl
+    c14_all k, r, (.mysqlModify g col ⟨ty, true, true, none, some c⟩), hk
+  | true, true, some d, some c, h4, h5 =>
+    have h6 := h4 d rfl
+    have h7 := h5 c rfl
+    c14_all k, r, (.mysqlModify g col ⟨ty, true, true, some d, some c⟩), hk
+
+theorem stmt_mysqlChange (k : Kind) (r : Str → Bool) (g : Tgt) (col new : Name) (cs : ColSpec)
+    (hk : k = .mysql ∨ k = .mariadb) (hg : TgtOK k g) (hc : NameOK k col) (hn : NameOK k new) (hcs : ColSpecOK k cs) :
+    Good k r (.mysqlChange g col new cs) := by
+  have h1 := ok_tblP k g hg
+  have h2 := ok_nameP k col hc
+  have h8 := ok_nameP k new hn
+  obtain ⟨ty, nullable, autoinc, default, comment⟩ := cs
+  obtain ⟨h3, h4, h5⟩ := hcs
+  simp only at h3 h4 h5
+  match nullable, autoinc, default, comment, h4, h5 with
+  | false, false, none, none, _, _ => c14_all k, r, (.mysqlChange g col new ⟨ty, false, false, none, none⟩), hk
+  | false, false, some d, none, h4, _ =>
+    have h6 := h4 d rfl
+    c14_all k, r, (.mysqlChange g col new ⟨ty, false, false, some d, none⟩), hk
+  | false, false, none, some c, _, h5 =>
+    have h7 := h5 c rfl
+    c14_all k, r, (.mysqlChange g col new ⟨ty, false, false, none, some c⟩), hk
+  | false, false, some d, some c, h4, h5 =>
+    have h6 := h4 d rfl
+    have h7 := h5 c rfl
+    c14_all k, r, (.mysqlChange g col new ⟨ty, false, false, some d, some c⟩), hk
+  | false, true, none, none, _, _ => c14_all k, r, (.mysqlChange g col new ⟨ty, false, true, none, none⟩), hk
+  | false, true, some d, none, h4, _ =>
+    have h6 := h4 d rfl
+    c14_all k, r, (.mysqlChange g col new ⟨ty, false, true, some d, none⟩), hk
+  | false, true, none, some c, _, h5 =>
+    have h7 := h5 c rfl
+    c14_all k, r, (.mysqlChange g col new ⟨ty, false, true, none, some c⟩), hk
+  | false, true, some d, some c, h4, h5 =>
+    have h6 := h4 d rfl
+    have h7 := h5 c rfl
+    c14_all k, r, (.mysqlChange g col new ⟨ty, false, true, some d, some c⟩), hk
+  | true, false, none, none, _, _ => c14_all k, r, (.mysqlChange g col new ⟨ty, true, false, none, none⟩), hk
+  | true, false, some d, none, h4, _ =>
+    have h6 := h4 d rfl
+    c14_all k, r, (.mysqlChange g col new ⟨ty, true, false, some d, none⟩), hk
+  | true, false, none, some c, _, h5 =>
+    have h7 := h5 c rfl
+    c14_all k, r, (.mysqlChange g col new ⟨ty, true, false, none, some c⟩), hk
+  | true, false, some d, some c, h4, h5 =>
+    have h6 := h4 d rfl
+    have h7 := h5 c rfl
+    c14_all k, r, (.mysqlChange g col new ⟨ty, true, false, some d, some c⟩), hk
+  | true, true, none, none, _, _ => c14_all k, r, (.mysqlChange g col new ⟨ty, true, true, none, none⟩), hk
+  | true, true, some d, none, h4, _ =>
+    have h6 := h4 d rfl
+    c14_all k, r, (.mysqlChange g col new ⟨ty, true, true, some d, none⟩), hk
+  | true, true, none, some c, _, h5 =>
+    have h7 := h5 c rfl
+    c14_all k, r, (.mysqlChange g col new ⟨ty, true, true, none, some c⟩), hk
+  | true, true, some d, some c, h4, h5 =>
+    have h6 := h4 d rfl
+    have h7 := h5 c rfl
+    c14_all k, r, (.mysqlChange g col new ⟨ty, true, true, some d, some c⟩), hk
+
+/-! ## decidable form of `Good` and the counterexamples (the same witnesses are replayed on the real code on every run) -/
+
+def goodB (k : Kind) (r : Str → Bool) (c : Construct) : Bool :=
+  match render k r c, shape k c with
+  | some s, some items => emittedOk k r items (s ++ terminator k)
+  | _, _ => false
+
+theorem good_iff (k : Kind) (r : Str → Bool) (c : Construct) : Good k r c ↔ goodB k r c = true := by
+  unfold Good goodB
+  constructor
+  · rintro ⟨s, items, h1, h2, h3⟩
+    simp [h1, h2, h3]
+  · intro h
+    cases h1 : render k r c with
+    | none => simp [h1] at h
+    | some s =>
+      cases h2 : shape k c with
+      | none => simp [h1, h2] at h
+      | some items => exact ⟨s, items, rfl, rfl, by simpa [h1, h2] using h⟩
+
+def plainName (s : String) : Name := { s := s.toList }
+
+theorem nameOK_of_dec (k : Kind) (n : Name) (h1 : n.s ≠ []) (h2 : dblPercent k = false ∨ '%' ∉ n.s)
+    (h3 : n.s.getLast? ≠ some '\n') (h4 : '\t' ∉ n.s) (h5 : n.qn ≠ some (some false)) : NameOK k n := ⟨h1, h2, h3, h4, h5⟩
+
+theorem tgtOK_noSchema (k : Kind) (t : Name) (h : NameOK k t) : TgtOK k { t := t } :=
+  ⟨h, by intro n hn; simp [schemaNames, schemaGiven] at hn⟩
+
+/-- full-strength statement for `COMMENT ON COLUMN` on Oracle -/
+def columnComment_oracle_statement : Prop :=
+  ∀ (r : Str → Bool) (g : Tgt) (col : Name) (comment : Str), TgtOK .oracle g → NameOK .oracle col →
+    okText .oracle comment = true → Good .oracle r (.columnComment g col (some comment))
+
+/-- F6: `alembic/ddl/oracle.py visit_column_comment` writes the raw names -/
+theorem columnComment_oracle_counterexample : ¬ columnComment_oracle_statement := by
+  intro h
+  have := h (fun _ => false) { t := plainName "My T" } (plainName "c") "'x'".toList
+    (tgtOK_noSchema _ _ (nameOK_of_dec _ _ (by decide) (by decide) (by decide) (by decide) (by decide)))
+    (nameOK_of_dec _ _ (by decide) (by decide) (by decide) (by decide) (by decide)) (by decide)
+  rw [good_iff] at this
+  revert this
+  decide
+
+/-- full-strength statement for the MSSQL statements that embed names in `'…'` literals -/
+def mssql_literal_statement : Prop :=
+  ∀ (r : Str → Bool) (g : Tgt) (col new : Name) (rawcol ty : Str), TgtOK .mssql g → NameOK .mssql col →
+    NameOK .mssql new → okText .mssql ty = true →
+    Good .mssql r (.renameTable g new) ∧ Good .mssql r (.columnName g col new) ∧
+    Good .mssql r (.mssqlDropConstraint g rawcol ty) ∧ Good .mssql r (.mssqlDropFK g rawcol)
+
+/-- F7: `sp_rename '…'`, `object_id('…')`, `col_name(…) = '…'`, `exec('alter table …')` do not double `'` -/
+theorem mssql_literal_counterexample : ¬ mssql_literal_statement := by
+  intro h
+  have := (h (fun _ => false) { t := plainName "it's" } (plainName "c") (plainName "d") "c".toList
+    "sys.default_constraints".toList
+    (tgtOK_noSchema _ _ (nameOK_of_dec _ _ (by decide) (by decide) (by decide) (by decide) (by decide)))
+    (nameOK_of_dec _ _ (by decide) (by decide) (by decide) (by decide) (by decide))
+    (nameOK_of_dec _ _ (by decide) (by decide) (by decide) (by decide) (by decide)) (by decide)).2.1
+  rw [good_iff] at this
+  revert this
+  decide
+
+/-- F7 `_partial`: `sp_rename '<table>.<column>', <new>, 'COLUMN'` is correct for ALL names without a single
+    quote in the table/schema/column names that are embedded in the literal -/
+theorem stmt_mssql_columnName_partial (r : Str → Bool) (g : Tgt) (col new : Name) (hg : TgtOK .mssql g)
+    (hc : NameOK .mssql col) (hn : NameOK .mssql new)
+    (hq : ∀ n ∈ schemaNames g ++ [g.t, col], '\'' ∉ n.s) : Good .mssql r (.columnName g col new) := by
+  have hinner : '\'' ∉ renderP .mssql r (tblColP g col) := squote_not_mem_dotted r _ hq
+  have hpk := ok_tblColP .mssql g col hg hc
+  obtain ⟨hne, hnames, hitem⟩ := hpk
+  have hm0 := match0_chain r (schemaNames g ++ [g.t, col]) (schemaOf g) [g.t.s, col.s] hne hnames (by simpa [itemOk] using hitem)
+  have h2 := ok_nameP .mssql new hn
+  let ps : List Piece := [L ", " ",", nameP new]
+  have hps := pieces_ok_more .mssql r ps [T ",", .strIs "COLUMN".toList] ", 'COLUMN';".toList (by rfl)
+    (by simp [ps, piecesOK_cons, piecesOK_nil, pieceOK_L, h2]) (by intro c hc; simp at hc; subst hc; decide)
+    (by unfold noDot; decide)
+  refine ⟨_, _, by unfold render; rfl, rfl, ?_⟩
+  have e : "EXEC sp_rename '".toList ++ formatTableName .mssql r g.t g.schema ++ '.' :: formatColumnName .mssql r col ++
+        "', ".toList ++ formatColumnName .mssql r new ++ ", 'COLUMN'".toList ++ terminator .mssql =
+      "EXEC sp_rename ".toList ++ ('\'' :: (renderP .mssql r (tblColP g col) ++ '\'' ::
+        (renderPs .mssql r ps ++ ", 'COLUMN';".toList))) := by
+    simp [ps, render_tblColP, renderPs, render_L, render_nameP, formatColumnName, terminator]
+  have hl1 := lex_text_piece .mssql "EXEC sp_rename ".toList
+    ('\'' :: (renderP .mssql r (tblColP g col) ++ '\'' :: (renderPs .mssql r ps ++ ", 'COLUMN';".toList))) (by decide) (Or.inl (by decide))
+  have hl2 := lex_rawLiteral (renderP .mssql r (tblColP g col)) (renderPs .mssql r ps ++ ", 'COLUMN';".toList) hinner
+    (by simp [ps, renderPs, render_L])
+  have hfin : matchItems .mssql r [T ",", .strIs "COLUMN".toList] (lexFrom .mssql .none ", 'COLUMN';".toList) =
+      some (lex .mssql (terminator .mssql)) := by rfl
+  have hlex1 : lex .mssql "EXEC sp_rename ".toList = lex .mssql "EXEC sp_rename".toList := by decide
+  have hitems : ([T "EXEC sp_rename", Item.strSql [.ref (schemaOf g) [g.t.s, col.s]], T ",", nameRef new, T ",",
+      Item.strIs "COLUMN".toList] : List Item) =
+      T "EXEC sp_rename" :: Item.strSql [.ref (schemaOf g) [g.t.s, col.s]] :: (itemsPs ps ++ [T ",", .strIs "COLUMN".toList]) := by
+    simp [ps, itemsPs, itemsP, L, T, nameP, nameRef]
+  unfold emittedOk
+  rw [lex, e, hl1, hl2, hlex1, hitems]
+  simp only [T, match_text]
+  simp only [matchItems]
+  have hm0' : match0 .mssql r [.ref (schemaOf g) [g.t.s, col.s]] (lex .mssql (renderP .mssql r (tblColP g col))) = some [] := hm0
+  simp only [hm0', beq_self_eq_true, if_true]
+  simp only [T] at hps hfin
+  rw [hps, hfin]
+  simp
+
+/-- the same four statements are fine on the literal-free witness (the recogniser is not vacuous) -/
+example : goodB .mssql (fun _ => false) (.columnName { t := plainName "My T", schema := some (plainName "dbo") }
+    (plainName "c") (plainName "D")) = true := by decide
+example : goodB .mssql (fun _ => false) (.mssqlDropFK { t := plainName "My T", schema := some (plainName "dbo") } "c".toList) = true := by
+  decide +kernel
+example : goodB .oracle (fun _ => false) (.columnComment { t := plainName "t" } (plainName "c") (some "'x'".toList)) = true := by
+  decide
+
+/-- `%` in a quoted name on PostgreSQL/MySQL (finding C14-PERCENT): excluded by `NameOK.pct` -/
+theorem percent_counterexample :
+    goodB .postgresql (fun _ => false) (.dropColumn { t := plainName "a%b" } (plainName "c")) = false := by decide
+
+/-- a TAB in a name (finding C14-TAB): `DefaultImpl._exec` rewrites it, so what is *written* differs from
+    `s ++ terminator`; excluded by `NameOK.tab` -/
+theorem tab_counterexample :
+    c14Ok .sqlite (fun _ => false) (.dropColumn { t := plainName "a\tb" } (plainName "c"))
+      (emit .sqlite ((render .sqlite (fun _ => false) (.dropColumn { t := plainName "a\tb" } (plainName "c"))).getD [])) = false := by
+  decide
+
 end C14
